@@ -130,11 +130,22 @@ Depth1 == UNION { Ctor1(e) : e \in ElemTypes } \cup NamedTypes \cup Unions2Valid
 Sampled(S) == LET q == SetToSeq(S) IN { q[i] : i \in { j \in 1..Len(q) : j % Mod = Rem } }
 Depth2 == UNION { { c \in Ctor1(e) : ~(c.k = "opt" /\ IsUnionish(e)) } : e \in Sampled(Depth1) }
 
+\* two container levels stacked directly over an optional / a union (depth 3): in the string syntax these are chains of postfix
+\* operators (`int?**`, `string->int?*`, `int?*3*2`, `int?[]*`) whose parse must nest exactly like the expanded nodes
+Wrap(x, e) == CASE x = "vec" -> Vec(e) [] x = "fvec" -> FVec(e, 2) [] x = "fvec3" -> FVec(e, 3) [] x = "map" -> Map(P("string"), e)
+                [] x = "dynarr" -> DynArr(e) [] x = "ndarr" -> NdArr(e, 2) [] x = "farr" -> FArr(e, <<2>>) [] x = "opt" -> Opt(e)
+Wrappers == {"vec", "fvec", "fvec3", "map", "dynarr", "ndarr", "farr"}
+Stacked == { Wrap(x, Wrap(y, Opt(P("int32")))) : x \in Wrappers, y \in Wrappers }
+           \cup { Wrap(x, Wrap(y, UISn)) : x \in {"vec", "map"}, y \in {"vec", "map", "fvec"} }
+           \cup { Wrap(x, Wrap("opt", Wrap(y, Opt(P("string"))))) : x \in {"vec", "map"}, y \in {"vec", "map"} }
+           \cup { Wrap("vec", Wrap("vec", Wrap("vec", Opt(P("int32"))))), Wrap("map", Wrap("map", Opt(P("int32")))) }
+
 Universe == IF Depth = 0 THEN PrimTypes
             ELSE IF Depth = 1 THEN PrimTypes \cup Depth1
+            ELSE IF Depth = 3 THEN Stacked
             ELSE Depth2
 
-MaxVals == IF Depth = 2 THEN 3 ELSE 10
+MaxVals == IF Depth >= 2 THEN 3 ELSE 10
 
 CasesOf(t) == LET vs == Take(Vals(t), MaxVals) IN { [t |-> t, i |-> i, v |-> vs[i]] : i \in 1..Len(vs) }
 
